@@ -28,6 +28,7 @@ class Case:
         self.events = events
         self.md = md
         self.counter: Optional[int] = None  # value to give the global name counter before translating
+        self.family = "top"  # generator family (not part of the case's identity)
         self.lean_query: Optional[Dict[str, Any]] = None  # the query as the Lean reference reads it, when it differs in spelling (negative index)
         self.result: Optional[Dict[str, Any]] = None
         self.package: Optional[Dict[str, Any]] = None
@@ -61,7 +62,9 @@ def gen_case(rng, backend: Optional[str] = None, nevents: int = EVENTS_PER_QUERY
     q, names, form = g.top_first_mix() if family == "first_mix" else g.top()
     banks = qgen.banks_used(q)
     evs = [qgen.gen_event(rng, b, banks, empty_bias=empty_bias) for _ in range(nevents)]
-    return Case(b, q, names, form, evs)
+    c = Case(b, q, names, form, evs)
+    c.family = family
+    return c
 
 
 def set_counter(case: Case):
@@ -101,11 +104,25 @@ def run_cases(ctx, cases: List[Case], with_query=True) -> None:
         c.answer = a
 
 
+def attach_syntax(cases: List["Case"]) -> None:
+    """g++ -fsyntax-only (with -Wfloat-conversion) on every accepted program"""
+    import cppmock
+
+    todo = [c for c in cases if c.result and c.result.get("ok") and getattr(c, "gxx_syntax", None) is None]
+    outs = cppmock.syntax_checks([(c.backend, c.result, c.events) for c in todo]) if todo else []
+    for c, o in zip(todo, outs):
+        c.gxx_syntax = o
+
+
 def needs_gxx(c: "Case") -> bool:
-    """the Lean semantics cannot interpret the emitted program (unrecognised line / construct)"""
+    """the Lean semantics cannot interpret the emitted program faithfully: an unrecognised line / construct, or an
+    implicit floating-to-integer conversion on assignment (found by g++ -Wfloat-conversion)"""
     a = c.answer
     if a is None or "bad" in a:
         return False
+    sx = getattr(c, "gxx_syntax", None)
+    if sx and sx.get("compiled") and sx.get("narrowing"):
+        return True
     outs = list(a.get("exec") or []) + [a.get("job") or {}]
     return any(str(o.get("fault", "")).startswith("stuck:opaque") for o in outs)
 
